@@ -391,6 +391,15 @@ def ray_builders(model, inst, X):
             lambda I, sp=sp: I.getattr_value(inst(
                 I, 'KullbackLeibler', sp()), 'convex_conj'),
             [-S('e0'), -2 * S('e1'), Rat.const(1) / 2, Rat.const(0)], 'ray')
+        # empty bins: a prior with exact zeros; where the prior vanishes the
+        # conjugate is the indicator of {y <= 1} and its proximal the
+        # identity below one
+        B['KullbackLeibler.convex_conj[prior with zeros,%s]' % t] = (
+            lambda I, sp=sp: I.getattr_value(inst(
+                I, 'KullbackLeibler', sp(), prior=point(sp(), [
+                    Rat.const(0), S('e4'), Rat.const(0), 2 * S('e4')])),
+                'convex_conj'),
+            [Rat.const(1) / 2, -S('e0'), Rat.const(-1), Rat.const(0)], 'ray')
         B['L1Norm.convex_conj[%s]' % t] = (
             lambda I, sp=sp: I.getattr_value(inst(
                 I, 'L1Norm', sp()), 'convex_conj'),
@@ -468,6 +477,19 @@ def ray_builders(model, inst, X):
                 quadratic_coeff=1 / (2 * sig),
                 linear_term=point(sp(), [Rat.const(1), Rat.const(-1),
                                          Rat.const(0), Rat.const(2)])),
+            [5 * sig, -4 * sig, sig / 8, 2 * sig], 'ray')
+        # a perturbation of a perturbation (same total as above)
+        B['FunctionalQuadraticPerturb(FunctionalQuadraticPerturb(L1Norm))'
+          '[%s]' % t] = (
+            lambda I, sp=sp: inst(
+                I, 'FunctionalQuadraticPerturb', inst(
+                    I, 'FunctionalQuadraticPerturb', inst(I, 'L1Norm', sp()),
+                    quadratic_coeff=1 / (4 * sig),
+                    linear_term=point(sp(), [Rat.const(1), Rat.const(0),
+                                             Rat.const(0), Rat.const(1)])),
+                quadratic_coeff=1 / (4 * sig),
+                linear_term=point(sp(), [Rat.const(0), Rat.const(-1),
+                                         Rat.const(0), Rat.const(1)])),
             [5 * sig, -4 * sig, sig / 8, 2 * sig], 'ray')
         B['BregmanDistance(L2NormSquared, y)[%s]' % t] = (
             lambda I, sp=sp: (lambda f: inst(
@@ -889,7 +911,37 @@ def _outcome(fn):
 _JOB = {}
 
 
+class _Budget(Exception):
+    pass
+
+
+def _with_budget(fn, seconds):
+    """Run fn() under a wall-clock budget (expression swell in a normal form
+    must end as UNDECIDED for that instance, not as a check that hangs)."""
+    import signal
+    import threading
+    if threading.current_thread() is not threading.main_thread():
+        return fn()
+
+    def _alarm(signum, frame):
+        raise _Budget()
+    old = signal.signal(signal.SIGALRM, _alarm)
+    prev = signal.alarm(seconds)
+    try:
+        return fn()
+    except _Budget:
+        return ('undecided', 'the evaluation of this instance exceeded %d s '
+                '(expression swell)' % seconds)
+    finally:
+        signal.alarm(0)
+        signal.signal(signal.SIGALRM, old)
+        if prev:
+            signal.alarm(max(1, prev - seconds))
+
+
 def _job(name):
+    import os
+    budget = int(os.environ.get('VERIF_JOB_TIMEOUT', '0') or 0) or 90
     model, B = _JOB['model'], _JOB['builders']
     b, entries, kind = B[name]
     out = {}
@@ -899,13 +951,13 @@ def _job(name):
                              if isinstance(kind, tuple)
                              else run_one(model, b, entries))
             return probs, _s([repr(v) for v in ps])
-        out['R6'] = _outcome(f6)
+        out['R6'] = _with_budget(lambda: _outcome(f6), budget)
     if kind != 'smooth, no rays':
         def f6d():
             probs, ps, nd = run_directional(
                 model, b, entries, coordinate_only=(kind == 'smooth'))
             return probs, _s([repr(v) for v in ps]), nd
-        out['R6d'] = _outcome(f6d)
+        out['R6d'] = _with_budget(lambda: _outcome(f6d), budget)
     return name, out
 
 
